@@ -45,6 +45,8 @@ func (ir *IntrospectionResolver) resolveSchema(schema *ast.Schema, selectionSet 
 
 	for _, f := range common.SelectionSetToFields(selectionSet, nil) {
 		switch f.Name {
+		case "description":
+			result[f.Alias] = schema.Description
 		case "types":
 			// resolve in name order, whatever the client selected
 			names := make([]string, 0, len(schema.Types))
@@ -270,6 +272,8 @@ func (ir *IntrospectionResolver) resolveDirective(schema *ast.Schema, directive 
 			result[f.Alias] = directive.Description
 		case "locations":
 			result[f.Alias] = directive.Locations
+		case "isRepeatable":
+			result[f.Alias] = directive.IsRepeatable
 		case "args":
 			args := []map[string]interface{}{}
 			for _, arg := range directive.Arguments {
